@@ -92,7 +92,7 @@ def main():
         subprocess.check_call([os.path.join(VERIF, 'run.sh'), 'build'])
     sel = sys.argv[1:]
     jobs = []
-    for kind in ('mutants', 'neutral'):
+    for kind in (os.environ.get('SELFTEST_KIND') or 'mutants,neutral').split(','):
         dd = os.path.join(VERIF, 'selftest', kind)
         for f in sorted(os.listdir(dd)):
             if f.endswith('.patch') and (not sel or any(s in f for s in sel)):
